@@ -459,7 +459,8 @@ def split_rule(repo, rep):
             names = sorted(x.id for x in ast.walk(n.test) if isinstance(x, ast.Name) and x.id != "any")
             calls = [c for c in ast.walk(n) if isinstance(c, ast.Call) and call_name(c) == "self.split"]
             if names == ["dmax", "dmin", "fmax", "fmin"] and calls and n.body and any(c in list(ast.walk(n.body[0])) for c in calls):
-                kws = {k.arg: unparse(k.value) for k in calls[0].keywords}
+                from ..astutil import bound_args
+                kws = {k_: unparse(v_) for k_, v_ in (bound_args(repo, st, calls[0]) or {}).items()}
                 ok = all(kws.get(x) == x for x in names)
     if ok:
         rep.ok("R-C09-4", f"{st.file} stats", "limits -> self.split(...)", "statistics with limits are statistics of the explicitly split spectrum")
